@@ -1,5 +1,9 @@
 """C19 probe: an update that omits 'traits' keeps the stored traits but is checked without them.
 
+REPAIRED in /repo by b7ba238 (update checks the merged reservation): on the repaired tree the update
+below raises InvalidInputError and this script prints NOT REPRODUCED; on a tree with that commit
+reverted it prints DEFECT REPRODUCED.
+
 Run: PYTHONPATH=/repo/lib/python /venv/bin/python c19_update_without_traits.py
 Real `treadmill.api.allocation.API().reservation.create/update` over a dict-backed fake admin.
 Partition p1 of cell c1: cpu 100%, limit for trait 'a': cpu 20%.
@@ -52,9 +56,11 @@ admin.partition.return_value = Part()
 context.GLOBAL.admin = admin
 api = allocation.API().reservation
 api.create('t/r1/c1', {'cpu': '10%', 'memory': '1G', 'disk': '1G', 'partition': 'p1', 'traits': ['a']})
-api.update('t/r1/c1', {'cpu': '90%', 'memory': '1G', 'disk': '1G', 'partition': 'p1'})
+try:
+    api.update('t/r1/c1', {'cpu': '90%', 'memory': '1G', 'disk': '1G', 'partition': 'p1'})
+except Exception as exc:        # pylint: disable=broad-except
+    print('update rejected: %r' % exc)
 print(STORE)
 used = sum(int(v['cpu'][:-1]) for v in STORE.values() if 'a' in v['traits'])
 print("trait 'a' cpu used %d%% of limit 20%%" % used)
-assert used > 20
-print('DEFECT REPRODUCED')
+print('DEFECT REPRODUCED' if used > 20 else 'NOT REPRODUCED (repaired)')
